@@ -264,11 +264,21 @@ func (p *Program) iface(pkg, name string) *types.Interface {
 	return i
 }
 
-// method finds the declared method of a named type.
+// method finds the declared method of a named type, or the (synthetic wrapper of the) promoted one.
 func (p *Program) method(n *types.Named, name string) *ssa.Function {
 	for i := 0; i < n.NumMethods(); i++ {
 		if m := n.Method(i); m.Name() == name {
 			return p.SSA.FuncValue(m.Origin())
+		}
+	}
+	for _, t := range []types.Type{n, types.NewPointer(n)} {
+		ms := p.SSA.MethodSets.MethodSet(t)
+		for i := 0; i < ms.Len(); i++ {
+			if sel := ms.At(i); sel.Obj().Name() == name {
+				if f := p.SSA.MethodValue(sel); f != nil {
+					return f
+				}
+			}
 		}
 	}
 	return nil
